@@ -473,6 +473,75 @@ func suiteGuards(c *Ctx) {
 			a.optsNil = true
 			emit(a, false)
 		}
+		// random tuples with SEVERAL arguments out of range at once: which typed error comes first is part of the
+		// contract (the guards are ordered); cheap because every such call is rejected before deriving
+		n := 150
+		if c.Thorough() {
+			n = 6000
+		}
+		for i := 0; i < n; i++ {
+			a := base()
+			bad := 0
+			if c.Rng.Intn(2) == 0 {
+				sl := []int{0, 1, maxSalt - 1, maxSalt, maxSalt + 1, maxSalt + 7}[c.Rng.Intn(6)]
+				if sl < 0 {
+					sl = 0
+				}
+				a.salt = c.genText(si.saltAlpha, sl)
+				if len(a.salt) > maxSalt {
+					bad++
+				}
+			}
+			if c.Rng.Intn(2) == 0 && len(a.salt) > 0 {
+				a.salt[c.Rng.Intn(len(a.salt))] = []byte{'@', '$', 0, 0xff, ',', '=', ' ', '\n'}[c.Rng.Intn(8)]
+				bad++
+			}
+			if c.Rng.Intn(2) == 0 {
+				a.rounds = []uint32{0, 1, 3, 999, 1000, 1000000000, 4294967295, 32, 31, 16777216}[c.Rng.Intn(10)]
+			}
+			if si.name == "bcrypt" {
+				a.rounds %= 256 // the cost parameter is a uint8: larger values cannot be passed
+			}
+			if c.Rng.Intn(3) == 0 && si.maxPw < 300 {
+				a.pw = c.randPw(si.maxPw+1+c.Rng.Intn(3), true)
+				bad++
+			}
+			if si.name == "argon2" {
+				if c.Rng.Intn(2) == 0 {
+					a.memory = []uint32{0, 1, 7, 8, 15}[c.Rng.Intn(5)]
+				}
+				if c.Rng.Intn(2) == 0 {
+					a.threads = []uint8{0, 1, 2, 64, 255}[c.Rng.Intn(5)]
+				}
+				if c.Rng.Intn(3) == 0 {
+					a.optsNil, a.optVersion = false, []int{0, 16, 19, 17, 255}[c.Rng.Intn(5)]
+					a.optPrefix = append(append([]string{}, si.prefixes...), "$argon2$", "")[c.Rng.Intn(len(si.prefixes)+2)]
+				}
+			}
+			if len(si.prefixes) > 0 && si.name != "argon2" && c.Rng.Intn(3) == 0 {
+				a.optsNil = false
+				a.optPrefix = append(append([]string{}, si.prefixes...), "$zz$", "")[c.Rng.Intn(len(si.prefixes)+2)]
+			}
+			// never derive at an in-range cost that is expensive (whatever else is wrong with the tuple: a guard that
+			// should have fired first may be the very thing under test)
+			expensive := false
+			switch si.name {
+			case "sha256", "sha512":
+				expensive = a.rounds > 5000 && a.rounds <= 999999999
+			case "sha1", "sunmd5":
+				expensive = a.rounds > 5000
+			case "desext":
+				expensive = a.rounds > 300000 && a.rounds <= 16777215
+			case "bcrypt":
+				expensive = a.rounds > 6 && a.rounds <= 31
+			case "argon2":
+				expensive = a.rounds > 3 || a.memory > 64
+			}
+			if expensive {
+				continue
+			}
+			emit(a, false)
+		}
 	}
 }
 
